@@ -191,6 +191,34 @@ fn main() {
             println!("// answers: {:?}", case.answers);
             0
         }
+        Some("matrix-probe") => {
+            // for each native-matrix template: how many of N small programs differ under aggressive GC
+            let n: u64 = args.get(2).and_then(|s| s.parse().ok()).unwrap_or(200);
+            for k in 0..24usize {
+                let mut bad = 0;
+                let mut first: Option<String> = None;
+                for seed in 0..n {
+                    let mut r = rng::Rng::new(seed * 31 + k as u64);
+                    let mut cfg = proggen::GenCfg::swarm(&mut r, 0);
+                    cfg.size = 6;
+                    cfg.f_class = true;
+                    cfg.f_gen = true;
+                    cfg.force_matrix = Some(k);
+                    let case = progscn::ProgCase::generate(&mut r, cfg, proggen::HoleVariant::Sync, "v");
+                    let reference = host::run_solo(&case.spec(host::Driver::Step, host::GcSched::off(), rng::Tape::from_vec(vec![]), 3_000_000));
+                    for g in [host::GcSched::threshold(1), host::GcSched::threshold(2), host::GcSched { inject: host::Inject::Prob { pm: 500, seed }, ..host::GcSched::off() }] {
+                        let out = host::run_solo(&case.spec(host::Driver::Step, g, rng::Tape::from_vec(vec![]), 3_000_000));
+                        if out.result != reference.result || !out.stale.is_empty() {
+                            bad += 1;
+                            if first.is_none() { first = Some(format!("seed {} expected {} got {} stale {}", seed, reference.result.chars().take(120).collect::<String>(), out.result.chars().take(120).collect::<String>(), out.stale.len())); }
+                            break;
+                        }
+                    }
+                }
+                println!("template {:2}: {}/{} differ  {}", k, bad, n, first.unwrap_or_default());
+            }
+            0
+        }
         Some("genstats") => {
             let n: u64 = args.get(2).and_then(|s| s.parse().ok()).unwrap_or(100);
             let holes: usize = args.get(3).and_then(|s| s.parse().ok()).unwrap_or(0);
